@@ -246,3 +246,59 @@ for (_n1, _n2, _c1, _c2, _tier) in [(2, 2, False, False, "quick"), (3, 2, False,
                           desc="returns True <=> some pair of edges crosses properly (alpha,beta in (0,1), |det| >= 1e-6); open and closed polylines",
                           encodes=["hypnotoad.utils.polygons:intersect"], bounds="%d and %d vertices, closed=%s/%s" % (_n1, _n2, _c1, _c2),
                           max_paths=6000, wall_s=900))
+
+
+# ---------------------------------------------------------------------------------------------
+def _mk_wallintersection(npts):
+    """Equilibrium.wallIntersection on top of find_intersections (stubbed by a symbolic list of points): none -> None, one -> that point,
+    two coincident within intersect_tolerance (crossing through a shared vertex) -> one point and no error, two distinct -> RuntimeError,
+    more -> ValueError"""
+    def body(env):
+        sym = env.mode == "sym"
+        env.resolve_abs = False
+        eq = eqm.Equilibrium.__new__(eqm.Equilibrium)
+        eq.closed_wallarray = "wall"
+        eq.closed_wall = []
+        pts = numpy.empty((npts, 2), dtype=object if sym else float)
+        for k in range(npts):
+            pts[k, 0], pts[k, 1] = env.real("iR%d" % k, lo=LO, hi=HI), env.real("iZ%d" % k, lo=LO, hi=HI)
+
+        def stub(wall, p1, p2):
+            return None if npts == 0 else pts
+
+        import contextlib, io
+        try:
+            with patched((eqm, "find_intersections", stub)), sym_numpy(env, eqm), contextlib.redirect_stdout(io.StringIO()):
+                got = eq.wallIntersection(Point2D(0.0, 0.0), Point2D(1.0, 1.0))
+            outcome = "returned"
+        except RuntimeError:
+            got, outcome = None, "RuntimeError"
+        except ValueError:
+            got, outcome = None, "ValueError"
+        env.tag(outcome)
+        env.witness("ran_%s" % outcome)
+        if npts == 0:
+            env.claim("no_crossing_gives_None", outcome == "returned" and got is None)
+        elif npts == 1:
+            env.claim("single_crossing_returned", outcome == "returned")
+            env.claim_eq("single_crossing_point_R", got.R, pts[0, 0])
+            env.claim_eq("single_crossing_point_Z", got.Z, pts[0, 1])
+        elif npts == 2:
+            dR, dZ = absv(env, pts[0, 0] - pts[1, 0]), absv(env, pts[0, 1] - pts[1, 1])
+            same = (dR < 1.0e-14) & (dZ < 1.0e-14) if sym else (dR < 1.0e-14 and dZ < 1.0e-14)
+            if outcome == "returned":
+                env.claim("two_points_accepted_only_if_coincident_within_tolerance", same)
+                env.claim_eq("coincident_crossing_reported_as_one_point", got.R, pts[0, 0])
+            else:
+                env.claim("two_distinct_crossings_raise_RuntimeError", outcome == "RuntimeError")
+                env.claim("raised_only_if_distinct", ~same if sym else not same)
+        else:
+            env.claim("more_than_two_crossings_raise_ValueError", outcome == "ValueError")
+    return body
+
+
+for _n in (0, 1, 2, 3):
+    OBLIGATIONS.append(Ob("wallIntersection_%d_points" % _n, _mk_wallintersection(_n), tier="quick", family="wallIntersection",
+                          encodes=["hypnotoad.core.equilibrium:Equilibrium.wallIntersection"],
+                          desc="none / one / coincident pair (shared vertex) / distinct pair / more than two crossings", stubs=["find_intersections -> %d symbolic points" % _n],
+                          bounds="%d points returned by the edge-wise routine" % _n))
